@@ -665,7 +665,7 @@ Qed.
 (* ---------------------------------------------------------------------------------------------------------- *)
 (* additive programs: any nesting of blocks / try / failures around operations other than the three removals *)
 Definition additive_op (o : op) : bool :=
-  match o with Purge _ | Unstore _ | EmptyTrash | Transfer _ => false | _ => true end.
+  match o with Purge _ | Unstore _ | EmptyTrash | Transfer _ | ImportDs _ => false | _ => true end.
 
 Fixpoint additive (p : prog) : bool :=
   match p with
